@@ -35,8 +35,7 @@ def main(tier, seed, prop=PROP):
         rep.merge(part)
     c = rep.counters
     evaluations = c["hl.accept"] + c["hl.reject"] + c["ll.accept"] + c["ll.reject"]
-    if not (c["verdict.MUST_ACCEPT"] and c["verdict.MUST_REJECT"] and c["verdict.EITHER"]):
-        raise core.Inconclusive("generator did not reach every verdict region")
+    rep.require(not (not (c["verdict.MUST_ACCEPT"] and c["verdict.MUST_REJECT"] and c["verdict.EITHER"])), "generator did not reach every verdict region")
     rep.assumptions += ["R-LITERAL: MUST_ACCEPT = RFC 5321 4.1.3 forms with non-zero first octet; MUST_REJECT = not exactly "
                         "'[' (dotted quad <=255 | [IPv6:]RFC 4291 address) ']'; everything else is not judged (EITHER)"]
     return rep.finish(evaluations, rep.distinct_count,
